@@ -4,9 +4,9 @@ not own.
 
 Every op line is self-contained:
 
-  op <id> <opname> <pkg> (cfg u s x v p g q o z l e r n k a t) <parts…>
+  op <id> <opname> <pkg> (cfg u s x v p g q o w z l e r n k a t) <parts…>
 
-`cfg` = the sixteen model variant flags (unnamedFixed shadowFixed crossFixed voidFixed prefixFixed universeFixed resultsFixed resultOuterFixed zeroFixed lhsFixed errTypeFixed errRecvFixed typedNilFixed localsFixed), parts
+`cfg` = the seventeen model variant flags (unnamedFixed shadowFixed crossFixed voidFixed prefixFixed universeFixed resultsFixed resultOuterFixed qualFixed zeroFixed lhsFixed errTypeFixed errRecvFixed typedNilFixed localsFixed), parts
 are lists with a head atom:
   (ps (<name> Z<k>)…)   parameters, `<>` = unnamed, `_` = blank; Z<k> = type of the corpus table
                         (bound by a `ty Z<k> <wire type>` prelude line)
@@ -65,12 +65,21 @@ def bit : SExp → Option Bool
   | .atom "1" => some true
   | _ => none
 
+/-- `(quals <package name>…)`: the package names that qualify types of the signature (optional) -/
+def parseQuals (args : List SExp) : List Name :=
+  match findList args "quals" with
+  | some xs => xs.filterMap fun
+    | .atom a => some a.toList
+    | _ => none
+  | none => []
+
 def parseFlags (args : List SExp) : Option Flags := do
   let c ← findList args "cfg"
   match ← c.mapM bit with
-  | [u, s, x, v, p, g, q, o, z, l, e, r, n, k, a, t] =>
+  | [u, s, x, v, p, g, q, o, w, z, l, e, r, n, k, a, t] =>
     some { plumb := { unnamedFixed := u, shadowFixed := s, crossFixed := x, voidFixed := v, prefixFixed := p,
-                      universeFixed := g, resultsFixed := q, resultOuterFixed := o },
+                      universeFixed := g, resultsFixed := q, resultOuterFixed := o, qualFixed := w,
+                      quals := parseQuals args },
            chain := { zeroFixed := z, lhsFixed := l, errTypeFixed := e, errRecvFixed := r, typedNilFixed := n,
                       localsFixed := k, passFixed := a, tupleFixed := t } }
   | _ => none
